@@ -211,6 +211,11 @@ pub fn query_margin_ratio(deps: Deps, vamm: String, trader: String) -> StdResult
         }
     };
 
+    // a dust position can be worth less than one unit at this price: there is no ratio to speak of
+    if position_notional.is_zero() {
+        return Ok(Integer::zero());
+    }
+
     let remain_margin = calc_remain_margin_with_funding_payment(deps, position, unrealized_pnl)?;
 
     let margin_ratio = ((Integer::new_positive(remain_margin.margin)
